@@ -37,6 +37,9 @@ ASSUMPTIONS = [
     "'rejects an impossible condition': the oracle only demands a rejection when impossibility is certain (a conjunct "
     "V_S = v whose own subscript fixes V to the other value); a rejection of a possible condition is counted "
     "(tag rejected_possible) but is not a violation of this property's statement",
+    "idc_star's answer can depend on PYTHONHASHSEED (corpus/C08/hash_order_dependent.json: the keys taken from a Python set "
+    "in get_new_outcomes_and_conditions decide which condition is exchanged first); the model takes that order as the "
+    "parameter kordf, the harness drives the real code through both orders and judges every distinct answer",
     "termination of the model is by fuel (2(|outcomes|+|conditions|) + |V| + 4), checked on every generated input, proved only "
     "in part; the division `e / d` is modelled for the operands IDC* can produce (an ID* estimand is never a Fraction)",
     "pairs in which the same counterfactual variable V_S occurs both as an outcome and as a condition are left out of the "
@@ -223,9 +226,11 @@ def _explain(case, strategy, n_models):
         case07 = {"g": case["g"], "event": K.enc_event(event), "seed": seed}
         if C18._in_domain(case07):
             res = ["ok", K.canon_expr(E.to_str_tree(E.enc_expr(est)))]
-            fail, kind = C07._judge(case07, res, None, n_models)
-            if fail:
-                return "inherited", {"case07": case07, "kind07": kind}
+            for ds in (0, 7919):   # two model samples: a wrong estimand can coincide with the right value on a few models
+                c7 = dict(case07, seed=seed + ds)
+                fail, kind = C07._judge(c7, res, None, n_models)
+                if fail:
+                    return "inherited", {"case07": c7, "kind07": kind}
     return None, None
 
 
